@@ -22,7 +22,7 @@ import PoetryVerif.Proofs.PyConvLeafAlts
 import PoetryVerif.Proofs.PyConvNotIn
 import PoetryVerif.Proofs.VRangeOps
 import PoetryVerif.Proofs.MarkerProj
-import PoetryVerif.Proofs.PyConvFullNested
+import PoetryVerif.Proofs.PyConvFullC
 import PoetryVerif.Proofs.PyConvWildNe
 
 set_option linter.unusedSimpArgs false
@@ -434,26 +434,26 @@ theorem createNested_excluded_wildcard_partial (E : Env) (S : LeafSpec (leafEval
 
 /-! ## against poetry's own `validate`, no leaf-level hypothesis
 
-On the domain where C07's leaf specification is proved outright — `FullLeaf E`: single markers on plain string
+On the domain where C07's leaf specification is proved outright — `FullLeafC E`: single markers on plain string
 variables and `extra` (C07's fragments), `python_version op "a.b"` and `python_full_version op "a.b.c"` with a
-comparison operator — under an environment of interpreter `X.Y.Z` with a set of active extras.  The python_version /
-python_full_version pairing of `_merge_single_markers` is proved sound (`pairSound_py`, Proofs/PyConvPairFinal.lean),
+comparison operator or `~=` — under an environment of interpreter `X.Y.Z` with a set of active extras.  The python_version /
+python_full_version pairing of `_merge_single_markers` is proved sound (`pairSound_py`, `pairSound_pyC`: Proofs/PyConvPairFinal.lean, PyConvPairCompat.lean),
 so nothing about the simplifier is assumed. -/
 
 /-- **`get_python_constraint_from_marker` is an upper bound**: if the marker validates to true on the environment
 of `X.Y.Z`, its Python constraint admits `X.Y.Z`. -/
 theorem pyConstraint_upper_validate {E : Env} {ex : List String} (hX : E.extras = some ex) {X Y Z : Nat}
-    (hE : EnvPy E X Y Z) (m : M) (g : VC) (hg : M.Good (FullLeaf E) m) (h : gpc m = .ok g)
+    (hE : EnvPy E X Y Z) (m : M) (g : VC) (hg : M.Good (FullLeafC E) m) (h : gpc m = .ok g)
     (hv : M.validate E m = .ok true) : g.allowsPlain (pyV X Y Z) = true :=
-  gpc_upper_validate_full hX hE m g hg h hv
+  gpc_upper_validate_fullC hX hE m g hg h hv
 
 /-- **`get_python_constraint_from_marker` is exact on python-only markers**: `validate` on the environment of
 `X.Y.Z` returns exactly whether the constraint admits `X.Y.Z`. -/
 theorem pyConstraint_exact_validate {E : Env} {ex : List String} (hX : E.extras = some ex) {X Y Z : Nat}
-    (hE : EnvPy E X Y Z) (m : M) (g : VC) (hg : M.Good (FullLeaf E) m)
+    (hE : EnvPy E X Y Z) (m : M) (g : VC) (hg : M.Good (FullLeafC E) m)
     (hvars : ∀ n ∈ M.vars m, pyNames.contains n = true) (h : gpc m = .ok g) :
     M.validate E m = .ok (g.allowsPlain (pyV X Y Z)) :=
-  gpc_exact_validate_full hX hE m g hg hvars h
+  gpc_exact_validate_fullC hX hE m g hg hvars h
 
 /-- **`create_nested_marker` then `parse_marker` and `validate`**, for a Python range of the domain whose bounds have
 two or three components (`PyPrec2`): the marker read back lies in the domain and validates, on the environment of
